@@ -496,6 +496,38 @@ class Inliner(object):
             new_s = R().visit(new_s)
             ast.fix_missing_locations(new_s)
             self.inlined_fns.add(g.fq)
+            # `a, b = helper()` where every return of the helper is a pair: bind a and b where the pair is made
+            if isinstance(new_s, ast.Assign) and len(new_s.targets) == 1 and isinstance(new_s.targets[0], ast.Tuple) and \
+                    isinstance(new_s.value, ast.Name) and new_s.value.id == var and \
+                    all(isinstance(t, ast.Name) for t in new_s.targets[0].elts):
+                tnames = [t.id for t in new_s.targets[0].elts]
+                makers = [x for b in conv for x in ast.walk(b) if isinstance(x, ast.Assign) and len(x.targets) == 1 and
+                          isinstance(x.targets[0], ast.Name) and x.targets[0].id == var]
+                uses = [x for b in conv for x in ast.walk(b) if isinstance(x, ast.Name) and x.id == var and isinstance(x.ctx, ast.Load)]
+                ok = bool(makers) and not uses and all(
+                    isinstance(m.value, ast.Tuple) and len(m.value.elts) == len(tnames) and
+                    not any(isinstance(e, ast.Starred) for e in m.value.elts) for m in makers)
+                if ok:
+                    for m in makers:
+                        # sequential binding is the tuple binding when no element reads a target bound before it
+                        for i, e in enumerate(m.value.elts):
+                            if any(isinstance(y, ast.Name) and y.id in tnames[:i] for y in ast.walk(e)):
+                                ok = False
+                if ok:
+                    class S2(ast.NodeTransformer):
+                        def visit_Assign(self2, n):
+                            if any(n is m for m in makers):
+                                outs = []
+                                for tname, e in zip(tnames, n.value.elts):
+                                    a1 = ast.Assign(targets=[ast.Name(id=tname, ctx=ast.Store())], value=e)
+                                    outs.append(ast.fix_missing_locations(ast.copy_location(a1, n)))
+                                return outs
+                            return n
+                    conv = [S2().visit(b) for b in conv]
+                    flat = []
+                    for b in conv:
+                        flat.extend(b if isinstance(b, list) else [b])
+                    return pre + flat
             return pre + conv + [new_s]
         return None
 
